@@ -11,6 +11,7 @@ import DateutilVerif.Proofs.ParserGenStrids
 import DateutilVerif.Proofs.ParserGenSmall
 import DateutilVerif.Proofs.ParserGenHms
 import DateutilVerif.Proofs.ParserGenNum
+import DateutilVerif.Proofs.ParserGenStep
 
 namespace ParserGen
 open PM Py
@@ -29,6 +30,12 @@ theorem gen_eq_model_ymd_append_decimal (cls : Char → CClass) (self : Ymd) (va
 /-- `_ymd.append(int, label)` -/
 theorem gen_eq_model_ymd_append_int (cls : Char → CClass) (self : Ymd) (val : Nat) (label : Label) :
     Gen.P.ymd_appendNat cls self val label = self.appendNat val label := PGen.appendNat_eq cls self val label
+
+/-- `_ymd.append(str(n), label)` for the text of a non-negative int (what `_parse` appends for `Jan of 01`): the century
+    rule looks at the length of the decimal text -/
+theorem gen_eq_model_ymd_append_intstr (cls : Char → CClass) (self : Ymd) (n : Int) (label : Label) (hn : 0 ≤ n) :
+    Gen.P.ymd_appendIntStr cls self n label = self.appendCore (PPy.intStrLen n > 2) (.ok n.toNat) label :=
+  PGen.appendIntStr_eq cls self n label hn
 
 /-- `_ymd.could_be_day(value)` with the three properties `has_day / has_month / has_year` inlined -/
 theorem gen_eq_model_ymd_could_be_day (self : Ymd) (value : Dec) :
@@ -136,6 +143,31 @@ theorem gen_eq_model_parse_numeric_token (cls : Char → CClass) (info : Info) (
     Gen.P.parseNumericToken cls info tokens idx ymd res fuzzy =
       (PM.parseNumericToken cls info fuzzy tokens idx ymd res).map (fun r => (idx + r.1, r.2.1, r.2.2)) :=
   PGen.parseNumericToken_eq cls info fuzzy tokens idx ymd res
+
+/-! ### the token loop of `parser._parse` -/
+
+/- Full statement: the same without `hc`.  It is FALSE for a parserinfo whose `_century` is below 100 (see
+   `gen_eq_model_info_validate_partial`): in the `Jan of 01` arm `str(info.convertyear(value))` can then be the text of a
+   negative number, which Python appends (`int('-10')`) and the model clamps. -/
+/-- one iteration of `while i < len_l:` in `parser._parse` — the number arm (→ `_parse_numeric_token`), weekday name, month
+    name (`Jan-01[-99]`, `Jan of 01`, bare), AM/PM word (valid / fuzzy skip / ValueError), time-zone name with the
+    `GMT+3` sign flip written into the token list, numeric offset `-0300` / `-03:00` / `-3` with the parenthesised name,
+    jump word / fuzzy skip / ValueError — for every token list, index, result record, `_ymd` state and skip list.
+    The model returns how many FURTHER tokens were consumed (`i` ends at `i + adv + 1`). -/
+theorem gen_eq_model_parse_step_partial (cls : Char → CClass) (info : Info) (fuzzy : Bool) (l : List Token) (i : Nat)
+    (res : Res) (ymd : Ymd) (skipped : List Nat) (hc : 100 ≤ info.century) :
+    Gen.P.parseStep cls info l i l.length res ymd skipped fuzzy =
+      (PM.parseStep cls info fuzzy l.length i { l := l, res := res, ymd := ymd, skipped := skipped }).map
+        (fun r => (r.2.l, i + r.1 + 1, r.2.res, r.2.ymd, r.2.skipped)) :=
+  PGen.parseStep_eq cls info fuzzy l i res ymd skipped hc
+
+example : Gen.P.parseStep asciiCls (Info.default false false 2026 2000) [tk "GMT", tk "+", tk "3"] 0 3 { hour := some 10 } {} [] false
+    = .ok ([tk "GMT", tk "-", tk "3"], 1, { hour := some 10 }, {}, []) := by decide
+set_option maxRecDepth 8192 in
+example : Gen.P.parseStep asciiCls (Info.default false false 2026 2000) [tk "-", tk "0300", tk " ", tk "(", tk "BRST", tk ")"] 0 6
+    { hour := some 10 } {} [] false
+    = .ok ([tk "-", tk "0300", tk " ", tk "(", tk "BRST", tk ")"], 6,
+           { hour := some 10, tzoffset := some (-10800), tzname := some (tk "BRST") }, {}, []) := by decide
 
 example : Gen.P.parseNumericToken asciiCls (Info.default false false 2026 2000)
     [tk "10", tk ":", tk "41", tk ":", tk "59.5"] 0 {} {} false
